@@ -2,7 +2,9 @@ package vc
 
 import (
 	"fmt"
+	"go/ast"
 	"go/token"
+	"math/big"
 	"go/types"
 	"sort"
 	"strings"
@@ -159,6 +161,19 @@ func (g *Gen) run() {
 		g.assume(g.wellFormed(n, fv.Type(), "alloc@0"))
 	}
 	g.specEnv = env
+	// facts about package-level variables that are only written by package initialisation
+	if !strings.HasPrefix(fn.Name(), "init") {
+		for i, c := range g.DB.Globals {
+			if pkgShort(fn.Pkg.Pkg.Path()) != g.DB.GlobalPkg[i] {
+				continue
+			}
+			s, err := env.EvalBool(c.Expr)
+			if err != nil {
+				specFail("%s: global %s: %v", c.Pos, c.Src, err)
+			}
+			g.assume(s)
+		}
+	}
 	for _, c := range g.spec.Requires {
 		s, err := env.EvalBool(c.Expr)
 		if err != nil {
@@ -578,6 +593,10 @@ func (g *Gen) loopHead(l *Loop, preds []*ssa.BasicBlock, conds []string) {
 		}
 		g.obligeAt("inv-entry", fmt.Sprintf("loop%d.%s", l.Ordinal, labelOr(c.Label, c.Src)), pos, g.curPC, s)
 	}
+	// automatic invariants of range loops (proved like the others)
+	for i, t := range g.autoInvs(l, subst) {
+		g.obligeAt("inv-entry", fmt.Sprintf("loop%d.auto-range-%d", l.Ordinal, i), pos, g.curPC, t)
+	}
 	// 2. havoc what the loop modifies
 	head := entrySt.clone()
 	g.cur = head
@@ -587,6 +606,9 @@ func (g *Gen) loopHead(l *Loop, preds []*ssa.BasicBlock, conds []string) {
 		g.assume(sImp(g.curPC, g.wellFormed(n, phi.Type(), head.Alloc)))
 	}
 	l.HeadSt = head.clone()
+	for _, t := range g.autoInvs(l, nil) {
+		g.assumePC(t)
+	}
 	// 3. assume invariants
 	envH := g.loopEnv(l, head, nil)
 	for _, c := range l.Spec.Invs {
@@ -627,6 +649,9 @@ func (g *Gen) backEdge(l *Loop, from *ssa.BasicBlock) {
 	}
 	env := g.loopEnv(l, st, subst)
 	pos := g.posOf(l.MinPos)
+	for i, t := range g.autoInvs(l, subst) {
+		g.obligeAt("inv-preserved", fmt.Sprintf("loop%d.auto-range-%d", l.Ordinal, i), pos, cond, t)
+	}
 	for _, c := range l.Spec.Invs {
 		s, err := env.EvalBool(c.Expr)
 		if err != nil {
@@ -762,4 +787,109 @@ func (g *Gen) loopGuards(l *Loop) {
 			g.obligeAt(kind, fmt.Sprintf("loop%d.%s", l.Ordinal, labelOr(c.Label, c.Src)), pos, cond, t)
 		}
 	}
+}
+
+
+func pkgShort(path string) string {
+	s := ShortName(path + ".")
+	return strings.TrimSuffix(s, ".")
+}
+
+// CheckGlobalsImmutable verifies that the variables mentioned in `global` clauses are written only by
+// package initialisers (so assuming the clauses at every function entry is sound).
+func CheckGlobalsImmutable(P *Program, db *SpecDB) []string {
+	names := map[string]bool{}
+	for _, c := range db.Globals {
+		ast.Inspect(c.Expr, func(n ast.Node) bool {
+			if id, ok := n.(*ast.Ident); ok {
+				names[id.Name] = true
+			}
+			return true
+		})
+	}
+	var bad []string
+	for _, sp := range P.SPkgs {
+		for _, m := range sp.Members {
+			f, ok := m.(*ssa.Function)
+			_ = f
+			_ = ok
+		}
+	}
+	for k, f := range P.Funcs {
+		if strings.HasPrefix(f.Name(), "init") {
+			continue
+		}
+		for _, b := range f.Blocks {
+			for _, in := range b.Instrs {
+				st, ok := in.(*ssa.Store)
+				if !ok {
+					continue
+				}
+				root := st.Addr
+				for {
+					switch x := root.(type) {
+					case *ssa.FieldAddr:
+						root = x.X
+						continue
+					case *ssa.IndexAddr:
+						root = x.X
+						continue
+					}
+					break
+				}
+				if gl, ok := root.(*ssa.Global); ok && names[gl.Name()] {
+					bad = append(bad, fmt.Sprintf("%s writes global %s", k, gl.Name()))
+				}
+			}
+		}
+	}
+	return bad
+}
+
+
+// autoInvs returns the automatic invariants of `range` loops over ints and slices (lower and upper bound
+// of the hidden iteration variable), with the header phis replaced by subst (nil: the phis themselves).
+func (g *Gen) autoInvs(l *Loop, subst map[ssa.Value]string) []string {
+	var out []string
+	term := func(v ssa.Value) string {
+		if subst != nil {
+			if s, ok := subst[v]; ok {
+				return s
+			}
+		}
+		return g.val(v)
+	}
+	for _, phi := range g.headerPhis(l) {
+		lo := int64(0)
+		switch phi.Comment {
+		case "rangeindex":
+			lo = -1
+		case "rangeint.iter":
+			lo = 0
+		default:
+			continue
+		}
+		out = append(out, g.cmp(">=", term(phi), g.M.IntLit(big.NewInt(lo), phi.Type()), phi.Type()))
+		// upper bound: the loop compares phi+1 with a bound defined outside the loop
+		for b := range l.Blocks {
+			for _, in := range b.Instrs {
+				cmp, ok := in.(*ssa.BinOp)
+				if !ok || cmp.Op != token.LSS {
+					continue
+				}
+				add, ok := cmp.X.(*ssa.BinOp)
+				if !ok || add.Op != token.ADD || add.X != ssa.Value(phi) {
+					continue
+				}
+				if c, ok := add.Y.(*ssa.Const); !ok || c.Int64() != 1 {
+					continue
+				}
+				if !definedOutside(cmp.Y, l) {
+					continue
+				}
+				out = append(out, g.cmp("<", term(phi), g.val(cmp.Y), phi.Type()))
+			}
+		}
+	}
+	return out
 }
